@@ -263,6 +263,15 @@ func runC03(c *Ctx) {
 				for ch := uint32(0); ch < 256; ch++ {
 					jobs = append(jobs, job{ei, ch * 256, (ch + 1) * 256, true, c03F4, nil, 0})
 				}
+			} else if thorough {
+				// every other ss encoding: all 2^32 pairs x F in {00, FF} (carry-in and
+				// every preserved bit at 0 and at 1), plus the lattice with 4 patterns
+				for ch := uint32(0); ch < 256; ch++ {
+					jobs = append(jobs, job{ei, ch * 256, (ch + 1) * 256, true, []uint8{0x00, 0xff}, nil, 0})
+				}
+				for ch := uint32(0); ch < 16; ch++ {
+					jobs = append(jobs, job{ei, ch * 4096, (ch + 1) * 4096, false, c03F4, lattice, 1})
+				}
 			} else {
 				for ch := uint32(0); ch < 16; ch++ {
 					jobs = append(jobs, job{ei, ch * 4096, (ch + 1) * 4096, false, c03F4, lattice, 1})
@@ -308,9 +317,9 @@ func runC03(c *Ctx) {
 	c.R.Set("second_operand_lattice_size", int64(len(lattice)))
 	c.R.Set("exhaustive", false)
 	if thorough {
-		c.R.Set("exhaustive_parts", "all 2^32 operand pairs x F in {00,FF,01,FE} for ADD HL,BC / ADD IX,BC / ADD IY,BC / ADC HL,BC / SBC HL,BC; doubling forms and INC/DEC ss/IX/IY: all 65536 values x all 256 F")
+		c.R.Set("exhaustive_parts", "all 2^32 operand pairs x F in {00,FF,01,FE} for ADD HL,BC / ADD IX,BC / ADD IY,BC / ADC HL,BC / SBC HL,BC and x F in {00,FF} for each of the other 10 non-doubling ss encodings; doubling forms and INC/DEC ss/IX/IY: all 65536 values x all 256 F")
 	} else {
 		c.R.Set("exhaustive_parts", "doubling forms and INC/DEC ss/IX/IY: all 65536 values x all 256 F")
 	}
-	c.R.Set("rule", "every ss encoding of ADD HL/IX/IY, ADC HL, SBC HL: all 65536 first operands x a lattice of second operands (nibble/sign edges, single bits, PRNG; 512 quick / 2048 thorough) x F in {00,FF,01,FE}, plus all 256 F on a reduced pair set; thorough adds all 2^32 pairs x 4 F for one encoding of each operation; doubling forms and INC/DEC complete (65536 x 256 F). Oracle: 17-bit sum, H from the low 12 bits, overflow by signed range check, Z on the whole word; the whole States value is compared so nothing else may change and no memory write may happen; every 1024th Step continues on a by-value copy of the CPU struct while the abandoned struct is scribbled over. Each (encoding, x, y, F) tuple is enumerated once: distinct = evaluations by construction, all non-trivial")
+	c.R.Set("rule", "every ss encoding of ADD HL/IX/IY, ADC HL, SBC HL: all 65536 first operands x a lattice of second operands (nibble/sign edges, single bits, PRNG; 512 quick / 2048 thorough) x F in {00,FF,01,FE}, plus all 256 F on a reduced pair set; thorough adds all 2^32 pairs x 4 F for one encoding of each operation and all 2^32 pairs x 2 F for every other ss encoding; doubling forms and INC/DEC complete (65536 x 256 F). Oracle: 17-bit sum, H from the low 12 bits, overflow by signed range check, Z on the whole word; the whole States value is compared so nothing else may change and no memory write may happen; every 1024th Step continues on a by-value copy of the CPU struct while the abandoned struct is scribbled over. Each (encoding, x, y, F) tuple is enumerated once: distinct = evaluations by construction, all non-trivial")
 }
